@@ -19,3 +19,68 @@ package signer
 //@ requires h != nil
 //@ modifies tokroot, db, checkedset
 //@ ensures [failclosed] result1 == nil && result0 != nil && ((result0.State == pb.ResponseState_SUCCEEDED) <==> (result0.Signature != nil))
+
+// ---- batch endpoints: position by position ----
+
+//@ spec respsOK(res *pb.MultisignResponse, n int) bool = res != nil && len(res.Responses) == n && (forall j int :: 0 <= j && j < n ==> res.Responses[j] != nil && allocated(res.Responses[j])) && (forall j int, k int :: 0 <= j && j < k && k < n ==> res.Responses[j] != res.Responses[k])
+//@ spec noneSigned(res *pb.MultisignResponse) bool = forall j int :: 0 <= j && j < len(res.Responses) ==> res.Responses[j].Signature == nil && res.Responses[j].State != pb.ResponseState_SUCCEEDED
+
+//@ func validateMultisignRequests
+//@ requires req != nil && respsOK(res, len(req.Requests))
+//@ modifies each(j, 0, len(res.Responses), res.Responses[j].State)
+//@ ensures [states] forall j int :: 0 <= j && j < len(res.Responses) ==> res.Responses[j].State == old(res.Responses[j].State) || res.Responses[j].State == pb.ResponseState_DENIED || res.Responses[j].State == pb.ResponseState_FAILED
+//@ loop #1
+//@ invariant [range] 0 <= _n && _n <= len(req.Requests)
+//@ invariant [same] forall j int :: 0 <= j && j < len(res.Responses) ==> res.Responses[j].State == old(res.Responses[j].State)
+
+//@ func validateSignBeaconAttestationsRequests
+//@ requires req != nil && respsOK(res, len(req.Requests))
+//@ modifies each(j, 0, len(res.Responses), res.Responses[j].State)
+//@ ensures [states] forall j int :: 0 <= j && j < len(res.Responses) ==> res.Responses[j].State == old(res.Responses[j].State) || res.Responses[j].State == pb.ResponseState_DENIED || res.Responses[j].State == pb.ResponseState_FAILED
+//@ loop #1
+//@ invariant [range] 0 <= _n && _n <= len(req.Requests)
+//@ invariant [same] forall j int :: 0 <= j && j < len(res.Responses) ==> res.Responses[j].State == old(res.Responses[j].State)
+
+//@ func (*Handler).Multisign
+//@ requires h != nil
+//@ modifies tokroot, db, checkedset
+//@ ensures [shape] result1 == nil && result0 != nil && len(result0.Responses) >= 1 && (forall i int :: 0 <= i && i < len(result0.Responses) ==> result0.Responses[i] != nil)
+//@ ensures [failclosed] forall i int :: 0 <= i && i < len(result0.Responses) ==> ((result0.Responses[i].State == pb.ResponseState_SUCCEEDED) <==> (result0.Responses[i].Signature != nil))
+//@ ensures [oneeach] req != nil && len(req.Requests) > 0 ==> len(result0.Responses) == len(req.Requests)
+//@ loop #1
+//@ invariant [range] 0 <= _n && _n <= len(req.Requests) && res != nil && fresh(res) && len(res.Responses) == len(req.Requests) && fresh(res.Responses)
+//@ invariant [made] forall j int :: 0 <= j && j < _n ==> res.Responses[j] != nil && fresh(res.Responses[j]) && allocated(res.Responses[j]) && res.Responses[j].State == pb.ResponseState_UNKNOWN && res.Responses[j].Signature == nil
+//@ invariant [distinct] forall j int, k int :: 0 <= j && j < k && k < _n ==> res.Responses[j] != res.Responses[k]
+//@ loop #2
+//@ invariant [range] 0 <= _n && _n <= len(req.Requests)
+//@ loop #3
+//@ invariant [range] 0 <= _n && _n <= len(req.Requests) && len(accountNames) == len(req.Requests) && len(pubKeys) == len(req.Requests) && len(reqData) == len(req.Requests) && fresh(accountNames) && fresh(pubKeys) && fresh(reqData)
+//@ loop #4
+//@ invariant [range] 0 <= _n && _n <= len(results)
+//@ invariant [resps] len(res.Responses) == len(results) && (forall j int :: 0 <= j && j < len(res.Responses) ==> res.Responses[j] != nil && fresh(res.Responses[j]) && allocated(res.Responses[j])) && (forall j int, k int :: 0 <= j && j < k && k < len(res.Responses) ==> res.Responses[j] != res.Responses[k])
+//@ invariant [frame] unchangedField("pb.SignResponse", "State") && unchangedField("pb.SignResponse", "Signature")
+//@ invariant [done] forall j int :: 0 <= j && j < _n ==> ((res.Responses[j].State == pb.ResponseState_SUCCEEDED) <==> (res.Responses[j].Signature != nil))
+//@ invariant [todo-sig] forall j int :: _n <= j && j < len(res.Responses) ==> res.Responses[j].Signature == nil
+//@ invariant [todo-state] forall j int :: _n <= j && j < len(res.Responses) ==> res.Responses[j].State != pb.ResponseState_SUCCEEDED
+
+//@ func (*Handler).SignBeaconAttestations
+//@ requires h != nil
+//@ modifies tokroot, db, checkedset
+//@ ensures [shape] result1 == nil && result0 != nil && len(result0.Responses) >= 1 && (forall i int :: 0 <= i && i < len(result0.Responses) ==> result0.Responses[i] != nil)
+//@ ensures [failclosed] forall i int :: 0 <= i && i < len(result0.Responses) ==> ((result0.Responses[i].State == pb.ResponseState_SUCCEEDED) <==> (result0.Responses[i].Signature != nil))
+//@ ensures [oneeach] req != nil && len(req.Requests) > 0 ==> len(result0.Responses) == len(req.Requests)
+//@ loop #1
+//@ invariant [range] 0 <= _n && _n <= len(req.Requests) && res != nil && fresh(res) && len(res.Responses) == len(req.Requests) && fresh(res.Responses)
+//@ invariant [made] forall j int :: 0 <= j && j < _n ==> res.Responses[j] != nil && fresh(res.Responses[j]) && allocated(res.Responses[j]) && res.Responses[j].State == pb.ResponseState_UNKNOWN && res.Responses[j].Signature == nil
+//@ invariant [distinct] forall j int, k int :: 0 <= j && j < k && k < _n ==> res.Responses[j] != res.Responses[k]
+//@ loop #2
+//@ invariant [range] 0 <= _n && _n <= len(req.Requests)
+//@ loop #3
+//@ invariant [range] 0 <= _n && _n <= len(req.Requests) && len(accountNames) == len(req.Requests) && len(pubKeys) == len(req.Requests) && len(reqData) == len(req.Requests) && fresh(accountNames) && fresh(pubKeys) && fresh(reqData)
+//@ loop #4
+//@ invariant [range] 0 <= _n && _n <= len(results)
+//@ invariant [resps] len(res.Responses) == len(results) && (forall j int :: 0 <= j && j < len(res.Responses) ==> res.Responses[j] != nil && fresh(res.Responses[j]) && allocated(res.Responses[j])) && (forall j int, k int :: 0 <= j && j < k && k < len(res.Responses) ==> res.Responses[j] != res.Responses[k])
+//@ invariant [frame] unchangedField("pb.SignResponse", "State") && unchangedField("pb.SignResponse", "Signature")
+//@ invariant [done] forall j int :: 0 <= j && j < _n ==> ((res.Responses[j].State == pb.ResponseState_SUCCEEDED) <==> (res.Responses[j].Signature != nil))
+//@ invariant [todo-sig] forall j int :: _n <= j && j < len(res.Responses) ==> res.Responses[j].Signature == nil
+//@ invariant [todo-state] forall j int :: _n <= j && j < len(res.Responses) ==> res.Responses[j].State != pb.ResponseState_SUCCEEDED
